@@ -66,7 +66,7 @@ def run_check(prop, tier):
         traceback.print_exc()
         return 2
     a = ctx.acc
-    path = os.path.join(core.ROOT, "evidence", f"{prop}.json")
+    path = os.path.join(core.OUT, "evidence", f"{prop}.json")
     if not validate_evidence(path) and rc == 0:
         return 2
     print(
